@@ -113,6 +113,40 @@ theorem legacy_trigger (t : TriggerD) (k : Blob) (tc : TriggerC)
 /-- non-vacuity of `legacy_trigger`: a concrete legacy keyword trigger loads -/
 example : (match loadTrigger wLegacy with | .ok _ => true | .error _ => false) = true := by decide
 
+/-- the same at the API boundary: in `from_dict(d).render()` the i-th trigger of a document,
+if legacy, comes out at position i with both keyword forms — for EVERY document whose round
+trip succeeds (no validity hypothesis). -/
+theorem legacy_trigger_doc (d o : DocD) (h : roundtrip d = .ok o) (i : Nat) (t : TriggerD) (k : Blob)
+    (ht : d.triggers[i]? = some t) (hks : t.keywords = none) (hk : t.keyword = some k) :
+    ∃ t', o.triggers[i]? = some t' ∧ t'.keyword = some k ∧
+      t'.keywords = some (if isNull k then [] else [k]) := by
+  unfold roundtrip at h
+  cases hl : load d with
+  | error e => simp [hl] at h
+  | ok c =>
+    simp only [hl] at h
+    obtain ⟨gd, fd, ho⟩ := render_triggers c o h
+    unfold load at hl
+    split at hl
+    · cases hl
+    · split at hl
+      · cases hl
+      · split at hl
+        · cases hl
+        · rename_i ts hts
+          cases hl
+          obtain ⟨tc, htc, hi⟩ := mapE_getElem d.triggers ts i t hts ht
+          obtain ⟨h1, h2⟩ := legacy_trigger t k tc hk hks htc
+          refine ⟨renderTrigger { tc with flow := assignFlowRef fd tc.flow, groups := tc.groups.map (assignGroup gd), excludeGroups := tc.excludeGroups.map (assignGroup gd) }, ?_, ?_, ?_⟩
+          · rw [ho]
+            simp only [List.getElem?_map, hi, Option.map_some]
+          · simpa [renderTrigger] using h1
+          · simpa [renderTrigger] using h2
+
+/-- `load` is a function of the document: the model cannot modify its input (the Python
+counterpart — the caller's object is untouched — is checked on every case by the harness). -/
+theorem load_pure (d d' : DocD) (h : d = d') : load d = load d' := by rw [h]
+
 /-! ### concrete documents: non-vacuity and negative witnesses -/
 
 
